@@ -10,6 +10,7 @@ import QrlewModel.Model.Filter
 import QrlewModel.Model.Clip
 import QrlewModel.Model.Tau
 import QrlewModel.Model.Rel
+import QrlewModel.Model.Quote
 /-!
 JSON-lines driver over the executable model.  One input line = one harness line
 (`{"stream":..,"case":..,..}`); one output line = `{"model": <canonical output>}`.
@@ -255,6 +256,14 @@ def runOfInt (c : Json) : Option Json := do
   let n ← (c.getObjVal? "n").toOption >>= jInt?
   pure (Json.str (toString (ofInt n)))
 
+def runQuote (c aux : Json) : Option Json := do
+  let s ← (c.getObjVal? "s").toOption >>= fun t => t.getStr?.toOption
+  let kind ← (c.getObjVal? "kind").toOption >>= fun t => t.getStr?.toOption
+  if kind == "col" then pure Json.null else
+  let qs ← (aux.getObjVal? "q").toOption >>= fun t => t.getStr?.toOption
+  let q ← qs.toList.head?
+  pure (Json.str (String.ofList (q :: Quote.esc q (Char.ofNat 0) s.toList ++ [q])))
+
 def opndOfJson? (j : Json) : Option Operand := do
   let tag ← (j.getArrVal? 0).toOption >>= fun t => t.getStr?.toOption
   match tag with
@@ -353,6 +362,7 @@ def handle (line : String) : Json :=
       | "hier" => runHier c
       | "fnimg" => runFnImg c
       | "ofint" => runOfInt c
+      | "quote" => runQuote c ((j.getObjVal? "aux").toOption.getD Json.null)
       | "filter" => runFilter c
       | "limit" => runLimit c
       | "sizes" => runSizes c
